@@ -115,14 +115,15 @@ OcraStart(u, k) ==
   /\ vCtr' = <<>> /\ vSet' = FALSE /\ vP' = <<>> /\ vS' = <<>>
 
 OcraNeedsS == vPr.ctr \/ vPr.plen > 0 \/ vPr.slen > 0
-OcraReady == vMode = "ocra" /\ (vSet \/ ~OcraNeedsS)
-OcraArgsOk(q, t) == OCRAQOk(vPr, q) /\ (vPr.ts # 0 => t # TimeErrL)
+OcraReady == vMode = "ocra" /\ (IF vSet THEN TRUE ELSE ~OcraNeedsS)
+\* (IF rather than =>: TLC splits an implication inside an action into two branches and generates the successor twice)
+OcraArgsOk(q, t) == OCRAQOk(vPr, q) /\ (IF vPr.ts # 0 THEN t # TimeErrL ELSE TRUE)
 OcraVal(q, t) == OtpO(vSuite, vKey, q, vCtr, vP, vS, TimeBE(t))
 
 \* c, p, s: what the caller passes; only the parameters the vSuite uses are taken
 OcraStepS(c, p, s) ==
   /\ vMode = "ocra"
-  /\ vPr.ctr => Len(c) = 8
+  /\ (IF vPr.ctr THEN Len(c) = 8 ELSE TRUE)
   /\ Len(p) >= vPr.plen /\ Len(s) >= vPr.slen
   /\ vCtr' = IF vPr.ctr THEN c ELSE <<>>
   /\ vP' = TakeN(p, vPr.plen) /\ vS' = TakeN(s, vPr.slen)
